@@ -171,6 +171,22 @@ fn run_entry(entry: &str, text: &str, l: &Lim) -> (String, serde_json::Value, Ve
                 Err(e) => res_of_err(&e),
             }
         }
+        // targets that discard what they read: the enforcer sees the same events whatever the visitor does with them
+        "str-ign" => {
+            let o = opts(l, &cell);
+            match serde_saphyr::from_str_with_options::<serde::de::IgnoredAny>(text, o) {
+                Ok(_) => "ok".into(),
+                Err(e) => res_of_err(&e),
+            }
+        }
+        "str-opt" => {
+            // an Option around the untyped tree: one more look at the first event (deserialize_option) before the value is read
+            let o = opts(l, &cell);
+            match serde_saphyr::from_str_with_options::<Option<Tree>>(text, o) {
+                Ok(_) => "ok".into(),
+                Err(e) => res_of_err(&e),
+            }
+        }
         "multi" => {
             let o = opts(l, &cell);
             match serde_saphyr::from_multiple_with_options::<Tree>(text, o) {
@@ -341,6 +357,10 @@ pub fn run(args: &Args) -> i32 {
             let mut entries = vec!["multi", "check-all"];
             if ndocs == 1 {
                 entries.push("str");
+                if li % 2 == 0 {
+                    entries.push("str-ign");
+                    entries.push("str-opt");
+                }
             }
             for entry in entries {
                 let (res, rep, items) = run_entry(entry, text, l);
